@@ -282,6 +282,12 @@ impl DepthFirstSearch {
                         // Rule executed successfully and goal is now proven
                         goal.status = GoalStatus::Proven;
 
+                        // Solutions are collected for the root goal only: a proof of a
+                        // sub-goal is not a solution of the query
+                        if depth > 0 {
+                            return true; // keep changes
+                        }
+
                         // Save this solution
                         self.solutions.push(Solution {
                             path: self.path.clone(),
@@ -308,6 +314,11 @@ impl DepthFirstSearch {
                             match self.executor.try_execute_rule(&rule, facts) {
                                 Ok(true) if self.check_goal_in_facts(goal, facts) => {
                                     goal.status = GoalStatus::Proven;
+
+                                    // Sub-goal proofs are not solutions of the query (see above)
+                                    if depth > 0 {
+                                        return true; // keep changes
+                                    }
 
                                     // Save this solution
                                     self.solutions.push(Solution {
@@ -371,7 +382,8 @@ impl DepthFirstSearch {
         }
 
         // If we found at least one solution (even if less than max_solutions), consider it proven
-        if !self.solutions.is_empty() {
+        // (root goal only: the list holds solutions of the query, not of sub-goals)
+        if depth == 0 && !self.solutions.is_empty() {
             goal.status = GoalStatus::Proven;
             // For negated goals, finding a proof means negation fails
             return !goal.is_negated;
